@@ -148,3 +148,32 @@ func splitComma(s string) []string {
 	}
 	return out
 }
+
+// CorpusItem is one committed input under /verif/corpus/<property>/.
+type CorpusItem struct {
+	Name string
+	Src  string
+}
+
+// Corpus loads /verif/corpus/<prop>/* in name order.
+func Corpus(prop string) []CorpusItem {
+	dir := os.Getenv("VERIF_DIR")
+	if dir == "" {
+		dir = "/verif"
+	}
+	ents, err := os.ReadDir(dir + "/corpus/" + prop)
+	if err != nil {
+		return nil
+	}
+	var out []CorpusItem
+	for _, e := range ents {
+		if e.IsDir() {
+			continue
+		}
+		b, err := os.ReadFile(dir + "/corpus/" + prop + "/" + e.Name())
+		if err == nil {
+			out = append(out, CorpusItem{e.Name(), string(b)})
+		}
+	}
+	return out
+}
